@@ -41,7 +41,8 @@ pub fn decode_mutation(bytes: &[Word]) -> Result<Mutation, MutationDecodeError> 
     // Saturating cast
     let key_len: usize = bytes[0].try_into().unwrap_or(usize::MAX);
     let key_end = 1usize.saturating_add(key_len);
-    if bytes.len() < key_end {
+    // The value length word at `key_end` must exist too.
+    if bytes.len() <= key_end {
         return Err(MutationDecodeError::WordsTooShort);
     }
     let key = bytes[1..key_end].to_vec();
@@ -82,8 +83,8 @@ pub fn decode_mutations(bytes: &[Word]) -> Result<Vec<Mutation>, MutationDecodeE
     // Saturating cast
     let len: usize = bytes[0].try_into().unwrap_or(usize::MAX);
 
-    // FIXME: Do a max size check to avoid a DoS attack that allocates too much memory.
-    let mut mutations = Vec::with_capacity(len);
+    // The length is untrusted, so it must not be used to pre-allocate.
+    let mut mutations = Vec::new();
     if len == 0 {
         return Ok(mutations);
     }
